@@ -333,3 +333,60 @@ def noninterference(prop, tier, seed, cov, log):
     shutil_rm = __import__('shutil').rmtree
     if os.environ.get('VERIF_KEEP') != '1': shutil_rm(rundir, ignore_errors=True)
     return viol
+
+
+# ------------------------------------------------------------------ C08: the real server over real sockets
+
+def wire_harness(prop, tier, seed, cov, log):
+    """C08: websocket.Handle with the production decorators, real sockets, goroutines and timers, against scripted
+    client misbehaviour (go/cmd/wire).  Each scenario run starts its own server and checks at the end that every
+    handler returned, nothing panicked, gauges and registry are back at rest, no server goroutine is left and the
+    witnesses in the same and in another session were served throughout."""
+    import concurrent.futures as cf
+    quick = tier == 'quick'
+    plan = {'malformed': (3, 30), 'fields': (3, 40), 'burst': (6, 120), 'abrupt': (3, 30), 'stall-silent': (2, 10),
+            'stall-chatty': (2, 10), 'idle': (2, 8)}
+    jobs = []
+    for sc, (nq, nt) in plan.items():
+        n = nq if quick else nt
+        per = max(1, n // (2 if quick else 8))
+        k = 0
+        while k < n:
+            jobs.append((sc, seed * 10000 + k, min(per, n - k))); k += per
+    def run(job):
+        sc, sd, n = job
+        try:
+            r = subprocess.run([f'{L.BIN}/wire', '-scenario', sc, '-seed', str(sd), '-n', str(n)], capture_output=True, text=True,
+                               env=L.GOENV, timeout=60 + 25 * n)
+            return job, r.returncode, r.stdout, r.stderr
+        except subprocess.TimeoutExpired as e:
+            return job, -9, (e.stdout or b'').decode() if isinstance(e.stdout, bytes) else (e.stdout or ''), 'timeout'
+    runs = {}; viol = []; seen = set(); known = L.load_known(prop)
+    def report(cause, job, detail):
+        if cause in seen: return
+        seen.add(cause)
+        k = [e for e in known if e['cause'] == cause]
+        if k:
+            print(f'KNOWN-FINDING: property={prop} {k[0]["what"]} [{cause}]'); return
+        sc, sd, n = job
+        path = L.write_replay(prop, cause, {'property': prop, 'cause': cause, 'seed': seed, 'tier': tier,
+                              'replay': f'.cache/bin/wire -scenario {sc} -seed {sd} -n {n}', 'detail': detail[:1500]}, [detail])
+        viol.append((path, ''))
+    with cf.ThreadPoolExecutor(max_workers=max(2, L.NCPU // 2)) as ex:
+        for job, rc, out, err in ex.map(run, jobs):
+            sc = job[0]
+            lines = [l for l in out.split('\n') if l.startswith('W ')]
+            runs.setdefault(sc, [0, 0])
+            runs[sc][0] += len(lines); runs[sc][1] += sum(1 for l in lines if l.endswith(' ok'))
+            bad = [l for l in lines if ' VIOLATION ' in l]
+            if bad:
+                # a wedged handler leaves process-wide gauges behind: only the first violation of a process counts
+                l = bad[0]
+                m = re.search(r'seed=(\d+) VIOLATION (\S+) :: (.*)', l)
+                report(m.group(2), (sc, int(m.group(1)), 1), l)
+            elif rc != 0 or len(lines) < job[2]:
+                report('server-process-died' if rc not in (0, -9) else 'scenario-did-not-finish', job,
+                       f'exit code {rc}; ' + (err or '')[-1500:].replace('\n', ' | '))
+    cov['wire_scenarios'] = {k: {'runs': v[0], 'ok': v[1]} for k, v in sorted(runs.items())}
+    cov['wire_runs'] = sum(v[0] for v in runs.values())
+    return viol
